@@ -157,9 +157,56 @@ def _r2(ctx):
                 "isinstance(destination, RegisterOperand)", C.canon_eq("parser.get_full_reg_name(destination)", reg)}
         ok = set(parts) == want
         which = "start" if k == 0 else "end" if k == 1 else "?"
-        ctx.check(ok, "R2", "%s marker = immediate value and register full name (4 conjuncts)" % which, f.where(n),
-                  "the %s-marker test is %s; look-alike instructions that move another value or use another register "
-                  "must not be markers" % (which, parts), f.qname, "%s marker conjunction" % which)
+        recognised, why_ = True, "the %s-marker test is %s; look-alike instructions that move another value or use another register " \
+            "must not be markers" % (which, parts)
+        if not ok:
+            # by what the conjuncts say (operands used in place or through locals, extra arity test, any order): source is an
+            # immediate with the marker value, destination is a register whose FULL NAME equals the marker register
+            fl_ = C.flow_of(f)
+            S_ = lambda e: U(fl_.subst(e))
+            srcs = ("line.operands[0 if not reverse else 1]", "line.operands[1 if reverse else 0]")
+            dsts = ("line.operands[1 if not reverse else 0]", "line.operands[0 if reverse else 1]")
+            srcs = {C.CT(x) for x in srcs}
+            dsts = {C.CT(x) for x in dsts}
+            has = {"imm": False, "val": False, "regcls": False, "name": False, "alias": False}
+            other = []
+            for v_ in n.test.values:
+                t_ = v_
+                if C.is_call_to(t_, "isinstance") and len(t_.args) == 2:
+                    who = C.CT(S_(t_.args[0]))
+                    if who in srcs and U(t_.args[1]) == "ImmediateOperand":
+                        has["imm"] = True
+                        continue
+                    if who in dsts and U(t_.args[1]) == "RegisterOperand":
+                        has["regcls"] = True
+                        continue
+                if isinstance(t_, ast.Compare) and len(t_.ops) == 1 and isinstance(t_.ops[0], ast.Eq):
+                    sides = [t_.left, t_.comparators[0]]
+                    txt = [S_(x) for x in sides]
+                    calls = [x for x in sides if isinstance(x, ast.Call)]
+                    if any(C.is_call_to(x, "normalize_imd") and len(x.args) == 1 and C.CT(S_(x.args[0])) in srcs for x in calls) \
+                            and "%s[%s]" % (vals, k) in txt:
+                        has["val"] = True
+                        continue
+                    if any(C.is_call_to(x, "get_full_reg_name") and len(x.args) == 1 and C.CT(S_(x.args[0])) in dsts for x in calls) and reg in txt:
+                        has["name"] = True
+                        continue
+                    if S_(t_) in ("len(line.operands) == 2", "2 == len(line.operands)"):
+                        continue
+                if C.is_call_to(t_, "is_reg_dependend_of") and len(t_.args) == 2 and reg in [S_(a_) for a_ in t_.args]:
+                    has["alias"] = True
+                    continue
+                other.append(U(v_))
+            ok = has["imm"] and has["val"] and has["regcls"] and has["name"] and not other
+            if has["alias"] and not has["name"]:
+                why_ = ("the %s-marker test compares the destination with the marker register through the ALIAS relation "
+                        "(is_reg_dependend_of): every register that overlaps it - rbx, bx, bl for ebx; w1 for x1 - counts as the marker "
+                        "register, so a look-alike `mov $111, %%rbx` / `mov w1, #111` followed by the byte sequence starts or ends the kernel"
+                        % which)
+            elif other:
+                recognised = False
+        ctx.judge(ok, recognised, "R2", "%s marker = immediate value and register full name (4 conjuncts)" % which, f.where(n),
+                  why_, f.qname, "%s marker conjunction" % which)
         body = [U(s) for s in n.body]
         mb = [s for s in n.body if isinstance(s, ast.Assign) and C.is_call_to(s.value, "match_bytes")]
         okb = len(mb) == 1 and [U(a) for a in mb[0].value.args] == [f.params()[0], "i + 1", nop]
@@ -177,7 +224,12 @@ def _r2(ctx):
     # operand order
     src = pm.find("source = line.operands[0 if not reverse else 1]", f.node)
     dst = pm.find("destination = line.operands[1 if not reverse else 0]", f.node)
-    ctx.check(bool(src) and bool(dst), "R2", "source/destination follow the ISA's operand order", f.where(),
+    body_txt = C.CT(U(f.node))
+    inplace = all(any(C.CT(x) in body_txt for x in alt) for alt in (
+        ("line.operands[0 if not reverse else 1]", "line.operands[1 if reverse else 0]"),
+        ("line.operands[1 if not reverse else 0]", "line.operands[0 if reverse else 1]")))
+    ctx.judge((bool(src) and bool(dst)) or inplace, bool(pm.find("source = M_x", f.node)) or bool(pm.find("destination = M_x", f.node)), "R2",
+              "source/destination follow the ISA's operand order", f.where(),
               "operand selection by `reverse` changed", f.qname, "operand order")
     outer = [n for n in ast.walk(f.node) if isinstance(n, ast.If) and "in mov_instr" in U(n.test)]
     parts = {U(v) for v in outer[0].test.values} if outer and isinstance(outer[0].test, ast.BoolOp) else set()
@@ -477,7 +529,7 @@ def _r8(ctx):
 
 
 def run(ctx):
-    C.require_locals(ctx, ctx.func('marker_utils.find_marked_section'), ['index_start', 'index_end', 'source', 'destination', 'line', 'lines', 'i', 'comments', 'mov_instr', 'reverse', 'parser'])
+    C.require_locals(ctx, ctx.func('marker_utils.find_marked_section'), ['index_start', 'index_end', 'line', 'lines', 'i', 'comments', 'mov_instr', 'reverse', 'parser'])
     C.require_locals(ctx, ctx.func('marker_utils.reduce_to_section'), ['start', 'end', 'isa'])
     C.require_locals(ctx, ctx.func('osaca.inspect'), ['kernel', 'parsed_code', 'args', 'isa'])
     _r1(ctx)
